@@ -95,13 +95,13 @@ pub open spec fn kind_exact<P: Fn(&u8) -> bool>(p: P, kind: int) -> bool {
     forall|c: u8| (p.ensures((&c,), true) ==> #[trigger] in_set(kind, c)) && (p.ensures((&c,), false) ==> !in_set(kind, c))
 }
 fn as_exact<P: Fn(&u8) -> bool>(p: P, Ghost(kind): Ghost<int>) -> (r: P)
-    requires /*@L:stop_predicate_is_the_byte_class_of_this_grammar_position:C05*/ kind_exact(p, kind),
+    requires /*@L:stop_predicate_is_the_byte_class_of_this_grammar_position:C05,C06*/ kind_exact(p, kind),
     ensures r == p, kind_exact(r, kind),
 { p }
 // R12: identity function wrapped around the closure argument of a scan: it carries the proof obligation "this closure is byte class
 // `kind`" to the call site (where the closure's body is known) and makes the term `kind_of(p, kind)` available to the callee's contract
 fn as_kind<P: Fn(&u8) -> bool>(p: P, Ghost(kind): Ghost<int>) -> (r: P)
-    requires /*@L:stop_predicate_is_the_byte_class_of_this_grammar_position:C05*/ kind_of(p, kind),
+    requires /*@L:stop_predicate_is_the_byte_class_of_this_grammar_position:C05,C06*/ kind_of(p, kind),
     ensures r == p, kind_of(r, kind),
 { p }
 // the split position is recoverable from the result: length of the yielded string (Ok) / of the offending slice (Err)
